@@ -564,8 +564,11 @@ func main() {
 			break
 		}
 	}
+	if !loopBroken {
+		daemonPhase()
+	}
 	run.Set("configurations", len(cfgs))
-	run.Rule("state = canonical (healthStatus, age of last completed check saturated just above 3 intervals, trailing failure run) reached by a history of events {check(vector over ok/error/timeout per token), advance(1 | 3 | 3+1ns intervals; thorough adds 1ns and 3 intervals-1ns in one depth-bounded configuration)} replayed on a fresh real server.New; BFS to fixpoint per configuration; GET /health compared with the reference predicate in every state; Close (twice) at every transition target and, for every check transition, with the first ping of that check still outstanding: the round in flight may finish, no further round may start, the loop goroutine must end. distinct_nontrivial = distinct canonical states other than the initial one")
+	run.Rule("state = canonical (healthStatus, age of last completed check saturated just above 3 intervals, trailing failure run) reached by a history of events {check(vector over ok/error/timeout per token), advance(1 | 3 | 3+1ns intervals; thorough adds 1ns and 3 intervals-1ns in one depth-bounded configuration)} replayed on a fresh real server.New; BFS to fixpoint per configuration; GET /health compared with the reference predicate in every state; Close (twice) at every transition target and, for every check transition, with the first ping of that check still outstanding: the round in flight may finish, no further round may start, the loop goroutine must end; the real daemon (loopback listeners, virtual grace period) shut down with each of {no fault, a listener whose Close fails, a request still inside a token operation when the grace period ends}: after Daemon.Close the loop goroutine is gone and the tokens are closed. distinct_nontrivial = distinct canonical states other than the initial one")
 	run.Assume("token Ping order inside one check is map order; the reference treats the per-check outcome vector as a multiset")
 	run.Assume("goroutine exit after Close is observed by polling runtime.Stack for up to 10 s (correct code exits in microseconds)")
 	run.Assume("the loop is driven only through what it waits on (virtual timers / tickers, token pings); a loop that starts more than 3 rounds of pings per wake-up is held at the next ping, judged and closed there, and not expanded further")
